@@ -64,6 +64,7 @@ def run_graphs(ctx, order, prop_assumptions, small=False):
         c["root"] = "R"
         c["akeys"] = i % 2 == 0          # node-graph legs: some keys are aliases to anchored scalars
         c["poison"] = mix(i) % 5 == 2        # the process has just rejected documents (bad keys, a value cycle)
+        c["keyval"] = mix(i + 2) % 3 == 1        # anchored int / bool / float KEYS next to the graph, their aliases used as values
         c["dupanc"] = mix(i + 1) % 4 == 1        # anchors share one name (redefined again and again): identity is the node
         if i % 3 == 1:
             # same graph over keys whose YAML spelling is not canonical: x -> 12 (written 0xc, 1_2, +12 ...), y -> true (True, TRUE)
